@@ -10,6 +10,9 @@ ignore, annotate, rewrite, inject, take-and-resume-later, take-then-raise or rai
 from __future__ import annotations
 
 import asyncio
+import contextvars
+import gc
+import weakref
 import logging
 import random
 import xmlrpc.client
@@ -21,7 +24,8 @@ from hsim.worlds.http import FlowRecord, HttpWorld
 
 PROPERTY = "C15"
 CHUNK = {"quick": 10, "thorough": 24}
-PROBES = ["two_sessions_in_one_simulator", "take_resume_later", "take_never_resumed", "raise_in_request_hook", "raise_in_response_hook",
+PROBES = ["closed_session_collected", "session_closed_with_flows_parked", "released_after_its_session_closed",
+          "response_of_a_closed_session_handled", "two_sessions_in_one_simulator", "take_resume_later", "take_never_resumed", "raise_in_request_hook", "raise_in_response_hook",
           "raise_in_subscriber", "raise_in_logger", "malformed_seed_request", "malformed_eq_request",
           "malformed_seed_response", "malformed_eq_response", "malformed_uploader_response", "malformed_login_response",
           "bad_bridge_owner_key", "response_injected_at_request", "url_rewritten", "flows_of_two_sessions_interleaved",
@@ -83,10 +87,26 @@ def gen_plan(rng: random.Random, tier: str) -> dict:
               "logger_raises": rng.random() < 0.3, "later": rng.choice([0.0, 0.003, 0.05]),
               "origin_delay": rng.choice([0.0, 0.0, 0.01, 0.05])}
         steps.append(st)
+    if rng.random() < 0.2:
+        # a session goes away (viewer logged out / crashed) shortly after its last request, while flows of it may
+        # still be parked with an addon or on their way; nothing of that session is requested afterwards
+        s = rng.randrange(n_sessions)
+        mine = [i for i, x in enumerate(steps) if x["s"] == s]
+        if mine:
+            cut = rng.choice(mine[len(mine) // 2:])
+            t_close = round(steps[cut]["at"] + rng.choice([0.0005, 0.002, 0.02, 0.08]), 4)
+            steps = [x for i, x in enumerate(steps) if not (x["s"] == s and i > cut)]
+            for x in steps:
+                if x["s"] == s and rng.random() < 0.5:
+                    x["later"] = rng.choice([0.05, 0.15, 0.3])
+            steps.append({"at": t_close, "op": "close", "s": s})
+            steps.sort(key=lambda x: x["at"])
     return {"property": PROPERTY, "cfg": cfg, "steps": steps}
 
 
 def simplify_step(step):
+    if step["op"] != "req":
+        return
     for key in ("req_beh", "resp_beh"):
         for i, b in enumerate(step[key]):
             if b != "ignore":
@@ -112,9 +132,11 @@ def simplify_plan(plan):
         yield {**plan, "cfg": {**cfg, "queue_latency": 0.0}}
     if cfg["logger"] != "none":
         yield {**plan, "cfg": {**cfg, "logger": "none"}}
-    if cfg["n_addons"] > 1 and all(s["req_beh"][1] == "ignore" and s["resp_beh"][1] == "ignore" for s in plan["steps"]):
+    reqs = [s for s in plan["steps"] if s["op"] == "req"]
+    if cfg["n_addons"] > 1 and all(s["req_beh"][1] == "ignore" and s["resp_beh"][1] == "ignore" for s in reqs):
         yield {**plan, "cfg": {**cfg, "n_addons": 1},
-               "steps": [{**s, "req_beh": s["req_beh"][:1], "resp_beh": s["resp_beh"][:1]} for s in plan["steps"]]}
+               "steps": [{**s, "req_beh": s["req_beh"][:1], "resp_beh": s["resp_beh"][:1]} if s["op"] == "req" else s
+                         for s in plan["steps"]]}
 
 
 def region_specs(sidx: int, n: int, shared_sims: bool = False) -> List[dict]:
@@ -139,7 +161,8 @@ def run_plan(plan: dict) -> RunResult:
     res = RunResult()
     cfg = plan["cfg"]
     stopped = []
-    beh: Dict[int, dict] = {s["tag"]: s for s in plan["steps"]}
+    beh: Dict[int, dict] = {s["tag"]: s for s in plan["steps"] if s["op"] == "req"}
+    closed: Dict[int, float] = {}      # session index -> when it was closed
     actions: List[dict] = []      # what scripted code did, in order
     takes: Dict[tuple, dict] = {}  # (flow id, event) -> {"resumed_at": t|None}
 
@@ -174,6 +197,9 @@ def run_plan(plan: dict) -> RunResult:
             actions.append({"kind": "take", "tag": tag, "event": event, "how": how})
             if not never:
                 def _resume():
+                    st_ = beh.get(tag) or {}
+                    if st_.get("s") in closed:
+                        res.probe("released_after_its_session_closed")
                     try:
                         flow.resume()
                         takes[key]["resumed_at"] = loop.time()
@@ -181,10 +207,16 @@ def run_plan(plan: dict) -> RunResult:
                         res.probe("take_resume_later")
                     except AssertionError:
                         pass
+                    except Exception as e:
+                        # whoever holds a taken flow must be able to release it, whatever happened meanwhile
+                        violate("C15/handoff/release-raised", tag=tag, event=event, exc=repr(e)[:160],
+                                session_closed=st_.get("s") in closed)
                 if later is None:
                     _resume()
                 else:
-                    loop.call_later(later, _resume)
+                    # (a long-lived worker of the addon releases it: not the hook's own context, which would pin the
+                    #  session and region objects)
+                    loop.call_later(later, _resume, context=contextvars.Context())
             else:
                 res.probe("take_never_resumed")
             if raise_after:
@@ -272,6 +304,10 @@ def run_plan(plan: dict) -> RunResult:
             now = snapshot_caps(flow)
             if st["kind"] in ("bridge", "bridge_bad", "login", "login_bad"):
                 return   # cap data is legitimately (re)derived on the response for these
+            if st["s"] in closed:
+                # the owning session is gone: what can still be attributed is the capability itself
+                now = {k: v for k, v in now.items() if k not in ("session", "region")}
+                res.probe("response_of_a_closed_session_handled")
             if any(b == "rewrite_url" for b in st["req_beh"]) is False and now != {k: before[k] for k in now}:
                 return violate("C15/state/cap-data-changed", tag=tag, kind_=st["kind"], before=before, now=now)
             for i, b in enumerate(st["req_beh"]):
@@ -352,6 +388,8 @@ def run_plan(plan: dict) -> RunResult:
                     return _sub
                 region.http_message_handler.subscribe("*", make_sub("region"))
             sess.http_message_handler.subscribe("*", make_sub("session"))
+        agent_ids = [str(x.agent_id) for x in sessions]
+        sess = region = None     # (the loop variables must not pin a session the plan closes later)
         if cfg["queue_latency"]:
             res.fault("queue_latency")
             res.probe("queue_latency")
@@ -390,7 +428,7 @@ def run_plan(plan: dict) -> RunResult:
                 hdrs = {"Content-Type": "text/xml"}
                 res.probe("malformed_login_response")
             elif kind in ("bridge", "bridge_bad"):
-                owner = str(sessions[st["s"]].agent_id) if kind == "bridge" else "not-a-uuid"
+                owner = agent_ids[st["s"]] if kind == "bridge" else "not-a-uuid"
                 if kind == "bridge_bad":
                     res.probe("bad_bridge_owner_key")
                 hdrs = {"X-SecondLife-Object-Name": "#Firestorm LSL Bridge v1", "X-SecondLife-Owner-Key": owner,
@@ -453,9 +491,33 @@ def run_plan(plan: dict) -> RunResult:
             rec = world.request({"method": method, "url": url, "content": content, "headers": headers, "st": st,
                                  "origin_delay": st["origin_delay"]})
             records[st["tag"]] = rec
+        def op_close(st):
+            s_ = st["s"]
+            sess_ = sessions[s_]
+            if sess_ is None:
+                return
+            pending = [k for k, v in takes.items() if v["resumed_at"] is None and not v["never"]]
+            res.fault("session_closed")
+            if pending:
+                res.probe("session_closed_with_flows_parked")
+            wr = weakref.ref(sess_)
+            world.sm.close_session(sess_)
+            closed[s_] = loop.time()
+            sessions[s_] = None
+            for d in world.sessions:
+                if d.get("session") is sess_:
+                    d["session"] = None
+            del sess_
+            gc.collect()
+            if wr() is None:
+                res.probe("closed_session_collected")
+
         for i, st in enumerate(plan["steps"]):
             def _run(i=i, st=st):
-                env.tr("step", i, st["kind"])
+                env.tr("step", i, st.get("kind", st["op"]))
+                if st["op"] == "close":
+                    env.ab("close")
+                    return op_close(st)
                 env.ab("req", st["kind"], st["status"])
                 op_req(st)
             loop.call_at(st["at"], _run)
@@ -570,7 +632,7 @@ def run_plan(plan: dict) -> RunResult:
                 if exc is not None and not isinstance(exc, (asyncio.CancelledError,)):
                     violate("C15/loop-exception", exc=repr(exc)[:200], msg=str(ctx.get("message"))[:160])
                     break
-        n_faults = sum(1 for s in plan["steps"] for b in s["req_beh"] + s["resp_beh"] + [s["sub_session"], s["sub_region"]]
+        n_faults = sum(1 for s in plan["steps"] if s["op"] == "req" for b in s["req_beh"] + s["resp_beh"] + [s["sub_session"], s["sub_region"]]
                        if b in ("raise", "take_raise_resume_later"))
         if n_faults:
             res.fault("scripted_exceptions", n_faults)
